@@ -48,6 +48,23 @@ pub mod verif {
     };
 }
 
+/// Verification hooks: the libp2p TLS certificate parser (QUIC) on raw DER bytes. Adds code only.
+#[cfg(all(feature = "verif", feature = "quic"))]
+pub mod verif_tls {
+    use crate::PeerId;
+
+    /// `tls::certificate::parse` (parse + verify) on DER bytes; the peer id on success.
+    pub fn verif_tls_parse(der: &[u8]) -> Option<PeerId> {
+        let certificate = rustls::Certificate(der.to_vec());
+        super::tls::certificate::parse(&certificate).ok().map(|certificate| certificate.peer_id())
+    }
+
+    /// `tls::certificate::generate` for `keypair`; the certificate's DER bytes.
+    pub fn verif_tls_generate(keypair: &crate::crypto::ed25519::Keypair) -> Option<Vec<u8>> {
+        super::tls::certificate::generate(keypair).ok().map(|(certificate, _)| certificate.0)
+    }
+}
+
 /// Verification hooks: further crate-private items of the Noise handshake (identity payload
 /// decoder, protocol name and crypto resolver) for the external correspondence harness. Adds
 /// code only.
